@@ -69,6 +69,8 @@ def deliver():
         if i not in S['done'] and S['clock'] >= t.started + S['dur'][i]:
             S['done'].add(i)
             t.result.num_ran = S['ran'][i]
+            if S.get('xf') == i + 1:
+                S['failures'].append(('t%d' % i, None))
             t.result.done = True
 
 
@@ -88,9 +90,10 @@ class SchedClock:
         deliver()
 
 
-def sched(n, verbose, dots, d0, d1, d2, g0, g1, g2, a0, a1, a2):
+def sched(n, verbose, dots, d0, d1, d2, g0, g1, g2, a0, a1, a2, xf=0):
     global LAST
     n = ci(n, 1, K + 1)
+    xf = ci(xf, 0, K)          # > 0: --stop-on-error is given and child xf-1 reports a failing test when it is done
     verbose = ci(verbose, 0, 2)
     dots = cb(dots)
     dur = [d0, d1, d2]
@@ -106,7 +109,7 @@ def sched(n, verbose, dots, d0, d1, d2, g0, g1, g2, a0, a1, a2):
         ls.append((dur[i], b'L%d-line-1\n' % i))
         S['lines'].append(ls)
     with untraced():
-        o = RW.options(['-j%d' % n] + (['-' + 'v' * verbose] if verbose else []))
+        o = RW.options(['-j%d' % n] + (['-' + 'v' * verbose] if verbose else []) + (['-x'] if xf else []))
         layers = [('w.L%d' % i, None, None) for i in range(K)]
         raw = KeepBytes()
     import sys
@@ -118,7 +121,9 @@ def sched(n, verbose, dots, d0, d1, d2, g0, g1, g2, a0, a1, a2):
     total = None
     try:
         try:
-            total = R.resume_tests(['t'], o, [], layers, [], [], [])
+            S['xf'] = xf
+            S['failures'] = []
+            total = R.resume_tests(['t'], o, [], layers, S['failures'], [], [])
         except Misuse as e:
             why = str(e)
     finally:
@@ -126,7 +131,7 @@ def sched(n, verbose, dots, d0, d1, d2, g0, g1, g2, a0, a1, a2):
     out = raw.value()
     if why is None:
         why = oracle(n, verbose, dots, out, total)
-    LAST = (n, verbose, dots, why, tuple(S['starts']), len(S['polls']), out[:300])
+    LAST = (n, verbose, dots, why, tuple(S['starts']), len(S['polls']), out[:300], xf)
     return why is None
 
 
@@ -234,12 +239,12 @@ def equal_reach(*a):
     return LAST[7] is None and LAST[8] >= 2
 
 
-_P = [('n', 'int'), ('verbose', 'int'), ('dots', 'bool')] + [('d%d' % i, 'int') for i in range(3)] + [('g%d' % i, 'int') for i in range(3)] + [('a%d' % i, 'int') for i in range(3)]
+_P = [('n', 'int'), ('verbose', 'int'), ('dots', 'bool')] + [('d%d' % i, 'int') for i in range(3)] + [('g%d' % i, 'int') for i in range(3)] + [('a%d' % i, 'int') for i in range(3)] + [('xf', 'int')]
 _C = ', '.join(n for n, _ in _P)
 
 
 def _sb(dmax, gmax):
-    return ('1 <= n <= 4 and 0 <= verbose <= 2 and ' + ' and '.join('1 <= d%d <= %d and 0 <= g%d <= %d and 0 <= a%d <= d%d' % (i, dmax, i, gmax, i, i) for i in range(3)))
+    return ('0 <= xf <= 3 and 1 <= n <= 4 and 0 <= verbose <= 2 and ' + ' and '.join('1 <= d%d <= %d and 0 <= g%d <= %d and 0 <= a%d <= d%d' % (i, dmax, i, gmax, i, i) for i in range(3)))
 
 
 _PE = [('j', 'int'), ('ka', 'int'), ('kb', 'int'), ('su', 'int'), ('td', 'int'), ('imp', 'bool'), ('verbose', 'int'), ('both', 'bool'), ('opt', 'int')]
@@ -248,7 +253,7 @@ _BE = '1 <= j <= 3 and 0 <= ka < %d and 0 <= kb < %d and 0 <= su <= 2 and 0 <= t
 
 
 def _v(**kw):
-    v = dict(n=2, verbose=0, dots=True, d0=2, d1=1, d2=1, g0=0, g1=1, g2=0, a0=1, a1=0, a2=1)
+    v = dict(n=2, verbose=0, dots=True, d0=2, d1=1, d2=1, g0=0, g1=1, g2=0, a0=1, a1=0, a2=1, xf=0)
     v.update(kw)
     return v
 
@@ -274,12 +279,12 @@ SPEC = {
     'outside': ['the OS scheduler, real pipes and true parallel speed-up', 'more than 3 children', 'durations beyond the stated bound'],
     'harnesses': [
         {'name': 'sched', 'fn': 'sched', 'params': _P, 'call': _C,
-         'bounds': {'quick': _sb(2, 1) + ' and verbose != 1 and g1 == 0', 'thorough': _sb(3, 1)},
+         'bounds': {'quick': _sb(2, 1) + ' and verbose != 1 and g1 == 0 and (xf == 0 or (xf == 1 and not dots and g0 == 0 and g2 == 0))', 'thorough': _sb(3, 1) + ' and (xf == 0 or not dots)'},
          'slices': {'quick': ['n == %d and verbose == %d and %s' % (n, vb, d) for n in range(1, 5) for vb in (0, 2) for d in ('dots', 'not dots')],
                     'thorough': ['n == %d and verbose == %d and %s and d0 == %d' % (n, vb, d, x) for n in range(1, 5) for vb in range(3) for d in ('dots', 'not dots') for x in (1, 2, 3)]},
          'reach': 'sched_reach', 'reach_bounds': {'quick': _sb(2, 1) + ' and verbose == 0', 'thorough': _sb(2, 1) + ' and verbose == 0'},
          'timeout': {'quick': 400, 'thorough': 1700},
-         'fidelity': [_v(), _v(n=3, verbose=2, d0=2, d1=1, d2=2, g0=1, a0=0), _v(n=1, verbose=1, dots=False), _v(n=4, verbose=2, d0=1, d1=2, d2=1, a1=2)]},
+         'fidelity': [_v(), _v(n=3, verbose=2, d0=2, d1=1, d2=2, g0=1, a0=0), _v(n=1, verbose=1, dots=False), _v(n=4, verbose=2, d0=1, d1=2, d2=1, a1=2), _v(n=2, xf=1, dots=False, d0=1, d1=2, d2=2), _v(n=3, xf=2, dots=False)]},
         {'name': 'equal', 'fn': 'equal', 'params': _PE, 'call': _CE,
          'bounds': {'quick': _BE + ' and verbose == 1 and (su != 0) + (td != 0) + imp <= 1 and kb <= 2 and (not both or (su == 0 and td == 0 and not imp)) and (opt == 0 or (ka <= 1 and kb == 0 and su == 0 and not imp and not both)) and (td != 3 or kb <= 1)', 'thorough': _BE + ' and (su != 0) + (td != 0) + imp <= 1 and (opt == 0 or (su == 0 and not imp))'},
          'slices': {'quick': ['j == %d and ka == %d' % (j, k) for j in (1, 2, 3) for k in range(len(KA))],
